@@ -216,7 +216,7 @@ def run(ctx, focus):
             os.remove(tr)
         # scale: hundreds of keys, 3-8 goroutines, no warm-up -- the maximum level grows concurrently, towers reach level 5-8
         tr = os.path.join(ctx.wd, "sl_wide.ndjson")
-        p = vlib.run_harness(["sl", "-out", tr, "-seed", vlib.seed() + 9, "-n", 1200 if T else 120, "-top", 12, "-free", "-wide"], timeout=1800)
+        p = vlib.run_harness(["sl", "-out", tr, "-seed", vlib.seed() + 9, "-n", 400 if T else 120, "-top", 12, "-free", "-wide"], timeout=1800)
         validate(ctx, tr, json.loads(p.stdout.strip().splitlines()[-1]), "free-running goroutines, hundreds of keys, growing towers", 12, fine=False)
         os.remove(tr)
     # ---- binding demonstration: flip one result in a recorded history
